@@ -136,7 +136,7 @@ def build(system, spec):
             kw['input_override'] = [D[x] for x in g['in']]
         if g.get('out'):
             kw['output_override'] = [D[x] for x in g['out']]
-        D[g['n']] = Group(g['n'], [D[d['n']] for d in g['devs']], **kw)
+        D[g['n']] = Group(g['n'], [D[n_] for n_ in (g.get('listed') or [d['n'] for d in g['devs']])], **kw)
     for d in spec['devs']:
         mk(d)
     for (frm, to) in spec.get('loops', []):
